@@ -151,8 +151,6 @@ class C19(Check):
                 ctx.violation("scan-pair-reported-twice", case, f"{got_pairs!r}")
             if set(got_pairs) != want:
                 ctx.violation("scan-wrong-pairs", case, f"got {sorted(set(got_pairs))!r} expected {sorted(want)!r}")
-            if (got is None) != (not want):
-                ctx.violation("scan-none-convention", case, f"got {got!r}")
             ctx.outcome(h64((case, sorted(want))))
             # histories: the same Assembly object scanned again after it changed
             self.rescan(asm, objs, case, ctx)
